@@ -71,6 +71,8 @@ func init() {
 			{Pkg: wtxmgrPkg, Fn: "ZzC12MinedL2", Tiers: "qt", Reach: []string{"c12-end", "leased", "lock-conflict", "lock-extended", "unlock-conflict", "unlocked", "swept", "confirmed-spend", "lock-unknown"}, Bound: "A confirmed with two credits, B spends A:0; 2 events from {see/mine/rollback/abandon, lock(op,id,duration in {0,1ns,1s,10min}), unlock(op,id), clock advance, sweep, restart}; clock seconds and nanoseconds symbolic"},
 			{Pkg: wtxmgrPkg, Fn: "ZzC12LeasedP1L2", Tiers: "qt", Reach: []string{"c12-end", "leased", "confirmed-spend", "lock-conflict", "unlocked"}, Bound: "A confirmed, A:0 leased to id1 for ten minutes (fixed preamble), then 2 free events (e.g. an unconfirmed spend of the leased output and its removal, a confirmed spend, a second identifier)"},
 			{Pkg: wtxmgrPkg, Fn: "ZzC12Tick", Tiers: "qt", Reach: []string{"c12-end"}, Bound: "one leased confirmed output (lease of 1 s or 10 min); Balance computed while the clock moves from t1 to t2 >= t1 (both symbolic, possibly across the expiry) after 0..3 clock readings; the answer must be the answer for t1 or for t2"},
+			{Pkg: walletPkg, Fn: "ZzC12WalletSmall", Tiers: "qt", Reach: []string{"c12w-end", "observed-while-leased", "observed-after-expiry", "other-id-refused", "released"}, Bound: "wallet level (Wallet.LeaseOutput / ReleaseOutput / CalculateBalance-equivalent / ListUnspent) on one funded wallet with the store's REAL clock: time.Now returns arbitrary non-decreasing instants (symbolic), lease of ten minutes, then another identifier tries to take it or the owner releases it; observations are asserted when the instants read before/after them put them certainly before or certainly after the expiry"},
+			{Pkg: walletPkg, Fn: "ZzC12Wallet", Tiers: "t", Reach: []string{"c12w-end", "observed-while-leased", "observed-after-expiry"}, Bound: "the same with 1 s and 10 min leases and four continuations (foreign lease, foreign release, release, extension + ListLeasedOutputs)"},
 			{Pkg: wtxmgrPkg, Fn: "ZzC12UnminedL3", Tiers: "t", Reach: []string{"c12-end", "leased"}, Bound: "A unconfirmed, 3 events"},
 			{Pkg: wtxmgrPkg, Fn: "ZzC12MinedL3", Tiers: "t", Reach: []string{"c12-end", "leased"}, Bound: "A confirmed, 3 events"},
 		},
